@@ -279,6 +279,49 @@ func execConvReuse(a []string) string {
 	return res
 }
 
+// scribble overwrites everything that can be reached through v: the elements of slices, the entries of maps, the
+// fields of structs
+func scribble(v reflect.Value) {
+	switch v.Kind() {
+	case reflect.Slice:
+		for i := 0; i < v.Len(); i++ {
+			scribble(v.Index(i))
+		}
+	case reflect.Map:
+		for _, k := range v.MapKeys() {
+			v.SetMapIndex(k, reflect.Value{})
+		}
+	case reflect.Struct:
+		for i := 0; i < v.NumField(); i++ {
+			scribble(v.Field(i))
+		}
+	case reflect.Ptr, reflect.Interface:
+	default:
+		if v.CanSet() {
+			v.Set(reflect.Zero(v.Type()))
+		}
+	}
+}
+
+// convalias <source type> | <target type> | <value>: the value is converted, then the caller overwrites every element,
+// entry and field of its result: the source is what it was (the result shares nothing with it)
+func execConvAlias(a []string) string {
+	p := splitBar(a)
+	st, _ := parseGType(p[0])
+	tt, _ := parseGType(p[1])
+	src, _ := parseGVal(st, p[2])
+	before := renderGo(src)
+	dst := reflect.New(tt.rtype())
+	if err := conversion.ConvertFrom(dst.Interface(), src.Interface()); err != nil {
+		return "err"
+	}
+	scribble(dst.Elem())
+	if after := renderGo(src); after != before {
+		return "changed " + before + " => " + after
+	}
+	return "ok unchanged"
+}
+
 func hasMap(t *gtype) bool {
 	switch t.kind {
 	case "{":
@@ -297,6 +340,7 @@ func hasMap(t *gtype) bool {
 
 func init() {
 	executors["convre"] = execConvReuse
+	executors["convalias"] = execConvAlias
 	executors["convdec"] = func(a []string) string {
 		p := splitBar(a) // same sections as conv: target | value | source
 		return execConvDec(append(append(append(append([]string{}, p[0]...), "|"), append(p[2], "|")...), p[1]...))
@@ -690,6 +734,19 @@ func runC20(r *Rand, tier string, o *Out) {
 				o.Do("P", fmt.Sprintf("convre %s | %s | %s | %s", st.tokens(), tt.tokens(), rows(), rows()), true)
 			}
 			o.Count("case:rows-of-other-lengths-into-a-used-destination")
+			continue
+		}
+		if i%13 == 3 {
+			// the result is the caller's: overwriting it does not reach the source (same types, or a compatible target
+			// in which some containers have the source's very type)
+			tt := st
+			if r.Bool() {
+				tt = compatTarget(r, st, o)
+			}
+			if res := o.Do("P", fmt.Sprintf("convalias %s | %s | %s", st.tokens(), tt.tokens(), val), true); strings.HasPrefix(res, "changed") {
+				o.Fail("the converted value shares elements with its source: "+st.kind, fmt.Sprintf("convalias %s | %s | %s => %s", st.tokens(), tt.tokens(), val, res))
+			}
+			o.Count("case:result-overwritten-source-unchanged")
 			continue
 		}
 		if i%9 == 4 {
